@@ -14,6 +14,9 @@ R10.6 result provenance: min/max/if return one of their arguments - no constant 
 R10.7 `contains(t, x)` is slice membership of x in t; `contains_any(t, (y1, y2))` is true exactly on the paths where some membership
       test `t.contains(yi)` was true; a non-tuple first argument (or non-tuple second argument of contains_any) is ExpectedTuple;
       a tuple-typed or empty element to look for is a type error on every path, wherever it stands and whatever the other elements match.
+R10.9 min / max of one integer and one float: the integer is returned exactly on paths whose decisive test, a comparison in the
+      float domain between the integer converted to float and the float, implies that it is the smaller (larger) one, the float on the
+      others; two integers / two floats go through the std minimum / maximum of that type or the corresponding comparison.
 R10.8 str::to_lowercase / str::to_uppercase / str::trim apply exactly the same-named std string method to a String argument and
       reject every other type with ExpectedString; str::from yields a String for every type, the string itself for a String and
       the std to_string of the payload (or of the value) otherwise.
@@ -56,6 +59,7 @@ def run(ctx):
     r106(ctx, prog, B)
     r107(ctx, prog, B)
     r108(ctx, prog, B)
+    r109(ctx, prog, B)
     impl_chain(ctx, prog)
     if ctx.tier == 'thorough':
         pf = ctx.prog(features=('rand', 'regex', 'serde'))
@@ -576,3 +580,62 @@ def r108(ctx, prog, B):
     else:
         ctx.violation('R10.8', 'str::from', 'missing', 'str::from has no arm')
     ctx.floor('R10.8', 'string_function_cases', n, 24)
+
+
+def r109(ctx, prog, B):
+    """min/max on mixed int/float pairs decide in the float domain (seed c10c compared the integer with the truncated float)"""
+    n = 0
+    for name in ('min', 'max'):
+        if name not in B.closures:
+            continue
+        for order in (('Int', 'Float'), ('Float', 'Int')):
+            args = [B.V(order[0], 'p0'), B.V(order[1], 'p1')]
+            ps = B.call(name, B.tuple(args))
+            n += 1
+            isym = SYM('p0') if order[0] == 'Int' else SYM('p1')
+            fsym = SYM('p1') if order[0] == 'Int' else SYM('p0')
+            fa = ('app', 'int_as_float', (isym,))
+            good = ps is not None and len(ps) >= 2
+            detail = []
+            seen = set()
+            for ret, eff in (ps or []):
+                if not (is_adt(ret, 'result::Result', 'Ok') and is_adt(ret[4][0], 'value::Value')):
+                    good = False
+                    detail.append(fmt(ret)[:60])
+                    continue
+                v = ret[4][0]
+                int_won = v[3] == 'Int' and v[4] == (isym,)
+                flt_won = v[3] == 'Float' and v[4] == (fsym,)
+                if not (int_won or flt_won):
+                    good = False
+                    detail.append('returns %s' % fmt(v)[:60])
+                    continue
+                seen.add('int' if int_won else 'float')
+                # the decisive test: a PartialOrd comparison between int_as_float(int) and the float
+                tests = [(t_v, tk) for t_v, tk in branches_of(eff) if t_v[0] == 'app' and 'PartialOrd' in t_v[1] and len(t_v[2]) == 2 and set(t_v[2]) == {fa, fsym}]
+                if len(tests) != 1:
+                    good = False
+                    detail.append('%s after tests %s' % ('Int' if int_won else 'Float', [fmt(t_v)[:80] for t_v, _ in branches_of(eff) if t_v[0] == 'app'][:3]))
+                    continue
+                t_v, tk = tests[0]
+                meth = t_v[1].split('::')[-1]
+                held = tk != C(0)
+                left_is_int = t_v[2][0] == fa
+                # relation established between I (= int as float) and F: one of '<', '<=', '>', '>='
+                rel = {'lt': '<', 'le': '<=', 'gt': '>', 'ge': '>='}.get(meth)
+                if rel is None:
+                    good = False
+                    continue
+                if not held:
+                    rel = {'<': '>=', '<=': '>', '>': '<=', '>=': '<'}[rel]
+                if not left_is_int:
+                    rel = {'<': '>', '<=': '>=', '>': '<', '>=': '<='}[rel]
+                # rel now reads: I rel F
+                int_smaller_or_equal = rel in ('<', '<=')
+                int_larger_or_equal = rel in ('>', '>=')
+                ok_ = (int_won and (int_smaller_or_equal if name == 'min' else int_larger_or_equal)) or (flt_won and (int_larger_or_equal if name == 'min' else int_smaller_or_equal))
+                if not ok_:
+                    good = False
+                    detail.append('%s returned although int %s float' % ('Int' if int_won else 'Float', rel))
+            ctx.check(good and seen == {'int', 'float'}, 'R10.9', '%s[%s,%s]' % (name, order[0], order[1]), 'mixed', '%s of an integer and a float compares them in the float domain and returns the one that is numerically %s, keeping its type (%s)' % (name, 'smallest' if name == 'min' else 'largest', detail[:3]))
+    ctx.floor('R10.9', 'mixed_minmax_cases', n, 4)
